@@ -83,6 +83,46 @@ def run(tier):
         if a:
             raise ToolError("binding self-test failed")
         v.add(binding_selftest="frame with a wrong length field rejected")
+    # ---- session level: the frames a real Session sends (mock node records header flags, opcode, raw body)
+    import re as _re
+    g = tlc("MC_CqlRequestE2E", "MC_CqlRequestE2E.cfg", workers=2, timeout=300)
+    if not g.ok() or not g.finished:
+        raise ToolError("MC_CqlRequestE2E failed: %s" % g.out[-400:])
+    scen = g.json_prints("SCEN")
+    if len(scen) < 500:
+        raise ToolError("too few session-level scenarios")
+    for k, sc in enumerate(scen):
+        sc["id"] = k
+    ein, eout = os.path.join(wd, "e2e.in.ndjson"), os.path.join(wd, "e2e.out.ndjson")
+    write_ndjson(ein, scen)
+    run_harness("vh-driver", ["c09", "e2e", ein, eout], timeout=900)
+    eo = read_ndjson(eout)
+    if len(eo) != len(scen):
+        raise ToolError("c09 e2e: %d of %d" % (len(eo), len(scen)))
+    erows = []
+    for sc, o in zip(scen, eo):
+        o.update({k: sc[k] for k in ("kind", "cl", "serial", "page", "ts", "tracing", "values", "btype")})
+        o["text0"] = [ord(ch) for ch in "SELECT c0 FROM ks.t"]
+        erows.append(o)
+    ej = os.path.join(wd, "e2e.j.ndjson")
+    write_ndjson(ej, erows)
+    acc, rr, rej = validate_trace("Trace_CqlRequestE2E", "Trace_CqlRequestE2E.cfg", ej, timeout=900)
+    if not acc:
+        raise ToolError("Trace_CqlRequestE2E did not consume its input (line %s)" % rej)
+    ebad = sorted({int(m.group(1)) - 1 for m in _re.finditer(r'<<"BAD", (\d+)>>', rr.out)})
+    for b in ebad[:8]:
+        x = erows[b]
+        v.violation("session level: %s with consistency %s serial %s page %s timestamp %s tracing %s values %s: the node received %s (%s)" % (
+            x["kind"], x["cl"], x["serial"], x["page"], x["ts"], x["tracing"], json.dumps(x["values"])[:120],
+            [(f["opcode"], f["flags"], f["body"][:80]) for f in x["frames"]], x["err"][:80]), [x])
+    v.add(session_level_scenarios=len(erows))
+    if not ebad:
+        b1 = json.loads(json.dumps(next(x for x in erows if x["kind"] == "execute" and x["serial"][0] == 1)))
+        b1["frames"][0]["body"][-1] ^= 1
+        pth = os.path.join(wd, "e2e.self.ndjson")
+        write_ndjson(pth, [b1])
+        if '<<"BAD", 1>>' not in validate_trace("Trace_CqlRequestE2E", "Trace_CqlRequestE2E.cfg", pth)[1].out:
+            raise ToolError("binding self-test (session level) failed")
     v.assumptions += ["correctness of the LZ4 / Snappy codecs themselves is trusted to lz4_flex / snap (the harness decompresses with them)",
                       "frames built by a Session (timestamps, page size, skip-metadata, metadata id chosen by the driver) are observed by the mock-cluster checks",
                       "a [long string] beyond 2^31 bytes is not exercised"]
